@@ -395,6 +395,10 @@ func (w *W) node(d meta.Definition, parent meta.Meta) M {
 			}
 			out["cases"] = cases
 			out["case-idents"] = x.CaseIdents()
+			out["has-default"] = x.HasDefault()
+			if x.HasDefault() {
+				out["default"] = x.Default()
+			}
 		})
 	case *meta.Rpc:
 		w.try("rpc.io", func() {
